@@ -118,7 +118,7 @@ func runValidator(r *common.Run) {
 		"every single-bit flip of small streams (header padding: every bit in one case of ten, 64 sampled bits otherwise) / all CRC and tail bits plus PRNG-sampled payload and header bits of multi-block streams; random bytes appended; non-trivial = payload of at least one byte and at least one mutation evaluated; distinct by hash of (stream, mutation list)")
 	r.Assume("rejected = some AddChunk returned false, Validate returned false, or the validator panicked (first chunk smaller than the header); accepted = all true")
 	r.Assume("what the validator cannot see and is therefore not demanded: flips in the header padding behind the CRC slot; flips in a header record whose CRC slot reads zero (all-zero header CRC escape of validateHeader, see the flip mode; files written by SnapshotWriter have a zero slot) unless the record no longer parses; for v2 the PayloadChecksum header field (not used by the v2 validator)")
-	nCases := r.Pick(320, 4000)
+	nCases := r.Pick(320, 3000)
 	for _, c := range myCases(r, nCases) {
 		rng := r.Rand("validator", c)
 		big := c%5 == 4
